@@ -6,6 +6,7 @@ WT=/tmp/mt_$(basename $D)
 if [ ! -d "$WT" ]; then git -C /repo worktree add -q "$WT" HEAD; git -C "$WT" apply --whitespace=nowarn "$(realpath $D/patch.diff)"; fi
 cd /verif
 set +e
-LIBCSD_REPO="$WT" VERIF_DEADLINE="${VERIF_DEADLINE:-600}" ./check "$P" --tier "$T" > /tmp/mutcheck.$(basename $D).$P.log 2>&1
+mkdir -p /tmp/mutcheck_ev /tmp/mutcheck_rp
+LIBCSD_REPO="$WT" VERIF_EVIDENCE_DIR=/tmp/mutcheck_ev VERIF_REPLAY_DIR=/tmp/mutcheck_rp VERIF_DEADLINE="${VERIF_DEADLINE:-600}" ./check "$P" --tier "$T" > /tmp/mutcheck.$(basename $D).$P.log 2>&1
 rc=$?
 echo "$(basename $D) $P $T rc=$rc : $(grep -c '^VIOLATION' /tmp/mutcheck.$(basename $D).$P.log) violations; $(grep -A1 '^VIOLATION' /tmp/mutcheck.$(basename $D).$P.log | grep '^   ' | head -2 | cut -c1-220 | tr '\n' ' ')"
